@@ -323,6 +323,119 @@ def family_disjoint(rng, dbdir, opts, nops):
     return h.lines
 
 
+def family_l0chain(rng, dbdir, opts, nops):
+    """several overlapping level-0 files that form chains (a later file reaches below/above an earlier one), then manual
+    compactions of level 0 over sub-ranges: the overlap collection has to grow the range in both directions"""
+    h = Hist(rng, dbdir, opts, rng.choice([12, 20]))
+    h.open()
+    ks = sorted(h.keys)
+    # a base in level 1 under the whole key space, so that later flushes stay in level 0
+    for k in ks:
+        h.emit('put %s %s' % (proto.arg(k), h.val(True)))
+    h.emit('flushmem')
+    h.emit('compact 0 * *')
+    n = len(ks)
+    for _ in range(max(3, nops // 6)):
+        # A = [a0..a1] and X = [x0..x1] with a0 < x0 <= a1 < x1: X reaches back into A and beyond it
+        a0 = rng.below(max(1, n - 6))
+        a1 = min(n - 2, a0 + rng.range(1, 3))
+        x0 = rng.range(a0 + 1, a1)
+        x1 = min(n - 1, a1 + rng.range(1, 3))
+        a_older = rng.chance(2, 3)
+        wins = [(a0, a1), (x0, x1)] if a_older else [(x0, x1), (a0, a1)]
+        if rng.chance(2, 3):
+            # no level-1 file under the range that will be compacted (only a narrow one under A's first key keeps the
+            # flushes in level 0): otherwise the expansion over the level-1 range collects the whole chain anyway
+            h.emit('compact 0 * *')
+            h.emit('compact 1 * *')
+            h.emit('put %s %s' % (proto.arg(ks[a0]), h.val(True)))
+            h.emit('flushmem')
+        if rng.chance(1, 3):
+            c0 = rng.below(n - 1)
+            wins.insert(rng.below(3), (c0, min(n - 1, c0 + rng.range(0, 2))))
+        for (a, b) in wins:
+            for k in ks[a:b + 1]:
+                if rng.chance(4, 5):
+                    if rng.chance(1, 5):
+                        h.emit('del %s' % proto.arg(k))
+                    else:
+                        h.emit('put %s %s' % (proto.arg(k), h.val(True)))
+            h.emit('put %s %s' % (proto.arg(ks[a]), h.val(True)))
+            h.emit('put %s %s' % (proto.arg(ks[b]), h.val(True)))
+            h.emit('flushmem')
+        # compact a sub-range that touches only part of the chain: the part of X above A when A is the older file
+        if a_older or rng.chance(1, 2):
+            i = rng.range(a1 + 1, x1)
+            j = rng.range(i, x1)
+        else:
+            i = rng.range(a0, x1)
+            j = rng.range(i, x1)
+        h.emit('ver')
+        h.emit('compact 0 %s %s' % (proto.arg(ks[i]), proto.arg(ks[j])))
+        h.read_all()
+        if rng.chance(1, 3):
+            h.snap()
+        if rng.chance(1, 4):
+            h.iter_walk(10)
+        if rng.chance(1, 5):
+            h.emit('compact 0 * *')
+    h.read_all()
+    h.emit('ls')
+    h.emit('close')
+    return h.lines
+
+
+def family_splitkey(rng, dbdir, opts, nops):
+    """one user key whose versions (pinned by snapshots, values >= max_file_size) are cut over adjacent files of a level >= 1,
+    the first of them shared with a smaller key; then compactions of a neighbouring range whose expansion pulls that first
+    file in: the boundary file holding the older versions has to come along"""
+    opts = rng.choice(['wbuf=65536 maxfile=1048576', 'wbuf=65536 maxfile=1048576 comp=1', 'wbuf=65536 maxfile=1048576 cmp=rev'])
+    h = Hist(rng, dbdir, opts, 12)
+    if opts.endswith('cmp=rev'):
+        h.keys = [b'k%03d' % i for i in range(12)]
+    h.open()
+    ks = sorted(h.keys, reverse=opts.endswith('cmp=rev'))
+    big = lambda: '@%d~%d' % (rng.below(1 << 30), rng.range(1060000, 1200000))
+    rounds = max(1, nops // 20)
+    for _ in range(rounds):
+        j = rng.range(3, len(ks) - 3)          # ks[j] shares a file with the first version of the hot key ks[j+1]
+        hot = ks[j + 1]
+        # wide file in level 3: [ks[0] .. ks[j]]
+        h.emit('put %s %s' % (proto.arg(ks[0]), h.val(True)))
+        h.emit('put %s %s' % (proto.arg(ks[j]), h.val(True)))
+        h.emit('flushmem')
+        for lvl in (0, 1, 2):
+            h.emit('compact %d * *' % lvl)
+        # versions of the hot key pinned by snapshots, plus ks[j], merged into level 2: [ks[j], hot@newest] [hot@older] ...
+        for v in range(rng.range(1, 3)):
+            h.emit('put %s %s' % (proto.arg(hot), big()))
+            h.snap()
+        h.emit('put %s %s' % (proto.arg(ks[j]), h.val(True)))     # same memtable as the newest version: one file
+        h.emit('put %s %s' % (proto.arg(hot), big()))
+        h.emit('flushmem')
+        h.emit('compact 0 * *')
+        h.emit('compact 1 * *')
+        h.emit('ver')
+        # a small file next to them (it lands in level 2 as well), then compact just its range: the level-3 file below
+        # widens the range up to ks[j] and the expansion pulls in the file that starts at ks[j]
+        a = rng.range(1, j - 1)
+        h.emit('put %s %s' % (proto.arg(ks[a]), h.val(True)))
+        h.emit('put %s %s' % (proto.arg(ks[j - 1]), h.val(True)))
+        h.emit('flushmem')
+        h.emit('ver')
+        h.emit('compact %d %s %s' % (rng.choice([2, 2, 1]), proto.arg(ks[a]), proto.arg(ks[j - 1])))
+        h.read_all()
+        if rng.chance(1, 2):
+            h.rel()
+        h.read_all()
+        h.iter_walk(8)
+    h.emit('compactall')
+    h.read_all()
+    h.emit('ls')
+    h.emit('close')
+    return h.lines
+
+
 def family_casefold(rng, dbdir, opts, nops):
     """a comparator under which different byte strings are one user key (ASCII case folding): every write, delete, read and
     seek uses a random spelling, so overwrites and tombstones meet older versions spelled differently in other files"""
@@ -330,7 +443,7 @@ def family_casefold(rng, dbdir, opts, nops):
     return rng.choice([family_random, family_tombstones, family_snapshot_chain])(rng, dbdir, opts, nops)
 
 
-FAMILIES = [('random', family_random), ('snapshot-chain', family_snapshot_chain), ('tombstones', family_tombstones), ('disjoint', family_disjoint), ('casefold', family_casefold)]
+FAMILIES = [('random', family_random), ('snapshot-chain', family_snapshot_chain), ('tombstones', family_tombstones), ('disjoint', family_disjoint), ('casefold', family_casefold), ('l0chain', family_l0chain), ('splitkey', family_splitkey)]
 
 
 def gen_history(rng, dbdir, nops):
@@ -339,9 +452,56 @@ def gen_history(rng, dbdir, nops):
     return name, opts, fam(rng, dbdir, opts, nops)
 
 
+def repair_chain(rng, dbdir, opts):
+    """two or three tables (and possibly a live log) whose key ranges form a chain, an older one reaching below a newer
+    one; repair puts them all in level 0; then a manual level-0 compaction over the part of the newer table that lies
+    above the older one, reads, follow-up writes, reopen"""
+    h = Hist(rng, dbdir, opts, 12)
+    h.open()
+    ks = sorted(h.keys)
+    n = len(ks)
+    a0 = rng.below(max(1, n - 6))
+    a1 = min(n - 2, a0 + rng.range(1, 3))
+    x0 = rng.range(a0 + 1, a1)
+    x1 = min(n - 1, a1 + rng.range(1, 3))
+    wins = [(a0, a1)]
+    if rng.chance(1, 2):
+        wins.append((x1, min(n - 1, x1 + rng.range(0, 2))))
+    wins.append((x0, x1))
+    for w, (a, b) in enumerate(wins):
+        for k in ks[a:b + 1]:
+            if rng.chance(1, 6) and w > 0:
+                h.emit('del %s' % proto.arg(k))
+            else:
+                h.emit('put %s %s' % (proto.arg(k), h.val(True)))
+        if w + 1 < len(wins) or rng.chance(1, 2):
+            h.emit('flushmem')          # the newest window may stay in the log: repair turns it into a table
+    h.emit('close')
+    h.emit('repair %d' % rng.choice([0, 0, 1, 2, 3]))
+    h.snaps = {}
+    h.iters = {}
+    h.open()
+    h.emit('dumpall')
+    h.read_all(with_snaps=False)
+    i = rng.range(a1 + 1, x1)
+    h.emit('compact 0 %s %s' % (proto.arg(ks[i]), proto.arg(ks[rng.range(i, x1)])))
+    h.read_all(with_snaps=False)
+    h.iter_walk(20)
+    h.write_some(rng.range(2, 5), small=True)
+    h.read_all(with_snaps=False)
+    h.emit('flushmem')
+    h.reopen()
+    h.read_all(with_snaps=False)
+    h.iter_walk(10)
+    h.emit('close')
+    return h.lines
+
+
 def family_repair(rng, dbdir, opts, nops):
     """states whose file numbering does not follow data age (flush, deeper-level manual compaction that renumbers
     old data, newer flushes above), live logs, tombstones; then metadata loss + repair + reopen + follow-up writes"""
+    if rng.chance(1, 3):
+        return repair_chain(rng, dbdir, opts)
     h = Hist(rng, dbdir, opts, rng.choice([4, 10]))
     h.open()
     for _ in range(nops):
@@ -366,6 +526,14 @@ def family_repair(rng, dbdir, opts, nops):
     h.emit('dumpall')
     h.read_all(with_snaps=False)
     h.iter_walk(20)
+    if rng.chance(1, 2):
+        # repair leaves every table in level 0 (chains of overlapping files): partial manual compactions of level 0
+        ks = sorted(h.keys)
+        for _ in range(rng.range(1, 3)):
+            i = rng.below(len(ks))
+            j = rng.range(i, len(ks) - 1)
+            h.emit('compact 0 %s %s' % (proto.arg(ks[i]), proto.arg(ks[j])))
+            h.read_all(with_snaps=False)
     h.write_some(rng.range(2, 5), small=True)
     h.read_all(with_snaps=False)
     h.emit('flushmem')
@@ -406,15 +574,29 @@ def family_lifecycle(rng, dbdir, opts, nops):
             h.emit('backup %s' % name)
             backups.append(name)
             h.emit('bcheck %s' % name)
+            if rng.chance(1, 3):
+                # a backup into a directory that exists already (an earlier backup, or the database itself) is refused
+                # -- and must leave that directory as it was
+                target = rng.choice(backups + [dbdir])
+                h.emit('backup %s' % target)
+                if target != dbdir:
+                    h.emit('bcheck %s' % target)
+                else:
+                    h.read_all(with_snaps=False, sample=4)
         elif k < 18 and backups:
             h.emit('bcheck %s' % rng.choice(backups))   # later source writes must not change an earlier backup
         elif k < 19:
             h.emit('close')
             h.emit('lockprobe %s' % dbdir)              # released
             if rng.chance(1, 2):
-                wrong = 'cmp=rev' if 'cmp=' not in opts else opts.replace('cmp=rev', 'cmp=bw').replace('cmp=len', 'cmp=bw').replace('cmp=ci', 'cmp=bw')
+                if 'cmp=' not in opts:
+                    wrong = opts + ' cmp=' + rng.choice(['rev', 'len', 'bw2', 'bwp'])     # bw2/bwp: names that extend / are a prefix of the right name
+                elif 'cmp=rev' in opts:
+                    wrong = opts.replace('cmp=rev', 'cmp=' + rng.choice(['bw', 'rev2', 'revp']))
+                else:
+                    wrong = opts.replace('cmp=len', 'cmp=bw').replace('cmp=ci', 'cmp=bw')
                 h.emit('expectfail')
-                h.emit('open %s %s' % (dbdir, wrong if 'cmp=' in wrong else opts + ' cmp=rev'))
+                h.emit('open %s %s' % (dbdir, wrong))
                 h.emit('lockprobe %s' % dbdir)          # a failed open releases the lock
             if rng.chance(1, 3):
                 name = os.path.join(base, 'copy%d' % nb)
